@@ -9,6 +9,5 @@ CONSTANTS
   BoundsTest = "layered"
   ManhTest = "lt"
 INVARIANT C09_Injective
-INVARIANT C09_Range
-INVARIANT C09_Inverse
-INVARIANT C09_Bounds
+\* (only the property this control must refute is listed: with several violated properties TLC's workers
+\*  would race for which one is reported first; the full list is checked on the right algorithm by the main cfg)
